@@ -548,8 +548,8 @@ PROPS["C20"] = {
         leg("callback", "c20_suspend", (2, 3), {"kind": "callback"}, what="resume inside the suspend callback"),
         leg("worker", "c20_suspend", (2, 3), {"kind": "worker"}, what="a sibling task resumes"),
         leg("nested", "c20_suspend", (1, 2), {"kind": "nested"}, what="two suspended tasks resumed in reverse order", weight=2.0),
-        leg("arena1", "c20_suspend", (2, 3), {"kind": "arena1"}, what="arena of one slot: owner recall"),
-        leg("arena1-late", "c20_suspend", (2, 3), {"kind": "arena1", "late": 1}, what="arena of one slot, the resumer waits until the suspending thread has gone to sleep (late resume must still wake it)"),
+        leg("arena1", "c20_suspend", (6, 8), {"kind": "arena1"}, what="arena of one slot: owner recall"),
+        leg("arena1-late", "c20_suspend", (6, 9), {"kind": "arena1", "late": 1}, what="arena of one slot, the resumer waits until the suspending thread has gone to sleep (late resume must still wake it)"),
         leg("foreign-late", "c20_suspend", (1, 2), {"kind": "foreign", "late": 1}, what="late resume with main and worker asleep", weight=2.0),
         leg("nested-late", "c20_suspend", (1, 2), {"kind": "nested", "late": 1}, what="two suspended tasks, late resume in reverse order", weight=2.0),
         leg("iso_wait-late", "c20_suspend", (2, 3), {"kind": "iso_wait", "late": 1}, what="one-slot arena: the only thread waits inside an isolated region for a group whose task is suspended; a foreign thread resumes late: the isolated waiter must pick up the resume request"),
